@@ -1068,15 +1068,15 @@ def run_shard(ctx, spec):
     ctx.hyp(girmodel.cases(), spec['n'], shrink=os.environ.get('C06_SHRINK', '1') != '0')
 
 
-_GATES = [('k:function', 0.3), ('k:callback', 0.12), ('k:record', 0.3), ('k:union', 0.15), ('k:boxed', 0.08),
-          ('k:enumeration', 0.15), ('k:bitfield', 0.15), ('k:class', 0.3), ('k:interface', 0.2), ('k:constant', 0.2),
-          ('k:alias', 0.15), ('t:basic', 0.5), ('t:string-or-pointer', 0.4), ('t:iface-local', 0.3),
+_GATES = [('k:function', 0.2), ('k:callback', 0.12), ('k:record', 0.25), ('k:union', 0.1), ('k:boxed', 0.06),
+          ('k:enumeration', 0.1), ('k:bitfield', 0.1), ('k:class', 0.2), ('k:interface', 0.13), ('k:constant', 0.12),
+          ('k:alias', 0.12), ('t:basic', 0.5), ('t:string-or-pointer', 0.4), ('t:iface-local', 0.3),
           ('t:iface-foreign', 0.2), ('t:iface-alias', 0.05), ('t:array-C', 0.15), ('t:array-GLib.Array', 0.03),
           ('t:array-GLib.PtrArray', 0.03), ('t:array-GLib.ByteArray', 0.03), ('t:array-length', 0.02),
           ('t:array-fixed', 0.08), ('t:list', 0.15), ('t:hash', 0.1), ('t:error', 0.03), ('nested-container', 0.1),
-          ('xns-ref', 0.3), ('rich-compound', 0.1), ('dir:out', 0.3), ('dir:inout', 0.2), ('transfer:full', 0.3),
+          ('xns-ref', 0.25), ('rich-compound', 0.1), ('dir:out', 0.3), ('dir:inout', 0.2), ('transfer:full', 0.3),
           ('transfer:container', 0.3), ('scope', 0.1), ('closure-destroy', 0.1), ('throws', 0.15),
-          ('vanishing-entry', 0.1), ('field-callback', 0.08), ('field-nonintrospectable', 0.05), ('prop-accessor', 0.03),
+          ('vanishing-entry', 0.1), ('field-callback', 0.06), ('field-nonintrospectable', 0.05), ('prop-accessor', 0.03),
           ('vfunc-invoker', 0.03), ('implements', 0.07), ('prerequisites', 0.04), ('shadows', 0.03), ('fundamental', 0.05),
           ('const:utf8', 0.03), ('const:double', 0.02), ('const:int64', 0.01), ('const:boolean', 0.01)]
 
